@@ -23,7 +23,7 @@ from pyvc.loops import SeqLoop
 from pyvc.values import new_array, to_z3
 from .common import CLIFF, idx_in
 from .stab_gates import _tab_parts, g_term
-from .stab_clifford import _zmeas_spec, _rs_phase, _havoc_store
+from .stab_clifford import _zmeas_spec, _rs_phase, _havoc_store, spec_sum, zmeas_choices
 
 C = {}
 REMOVE = f"{CLIFF}:remove_qubit"
@@ -41,6 +41,16 @@ def _old_index(a, b):
 
 def _first_hit(path, rt, n_, q_):
     """the least destabilizer index whose X part has a 1 in column q (exists by [T-basis]; least element of a non-empty set)"""
+    from pyvc.values import concrete_int
+
+    cn = concrete_int(n_)
+    if cn is not None:  # concrete tableau (replay): compute it
+        for k in range(cn):
+            v = z3.simplify(rt(z3.IntVal(k), q_) != 0)
+            if z3.is_true(v):
+                return z3.IntVal(k)
+            if not z3.is_false(v):
+                break
     omit = path.fresh("omit")
     kq = z3.Int(f"kq_omit!{path.counter.get('kq', 0)}")
     path.counter["kq"] = path.counter.get("kq", 0) + 1
@@ -74,13 +84,13 @@ def _remove_spec(I, T, q, mode="probabilistic"):
     else:
         omit = _first_hit(I.path, rt, n_, q_)
         ra, rb = omit, omit + n_
-        G = GSR()
+        Gs = spec_sum(I, GSR(), n, lambda i, j: g_term(rt(omit, j), rt(omit, n_ + j), rt(i, j), rt(i, n_ + j)))
 
         def hit(i):
             return z3.And(i >= 0, i < n_, i != omit, rt(i, q_) != 0)
 
         def rs(i):
-            return _rs_phase(rp1(i), ri(i), rp1(omit), ri(omit), G(i, n_))
+            return _rs_phase(rp1(i), ri(i), rp1(omit), ri(omit), Gs(i))
 
         bt = lambda i, j: z3.If(hit(i), (rt(i, j) + rt(omit, j)) % 2, rt(i, j))
         br = lambda i: z3.If(hit(i), rs(i)[0], rp1(i))
@@ -99,7 +109,7 @@ def _remove_spec(I, T, q, mode="probabilistic"):
 
 
 C[REMOVE] = Contract(REMOVE, requires=lambda I, T, q, mode="probabilistic": z3.And(idx_in(q, T.fields["n_qubits"])),
-                     spec=_remove_spec, extract=_remove_extract,
+                     spec=_remove_spec, extract=_remove_extract, choices=zmeas_choices,
                      clause="remove_qubit = Z-measure the qubit, then discard it: surviving generators restricted to the other qubits, "
                             "sign flipped where they carried Z on a qubit left in |1>; n-1 qubits remain in their order")
 
